@@ -9,10 +9,44 @@ Opaque codecs: base64 and JSON texts are tokens.  b64decode(token) -> the value 
 -> a FRESH COPY of the object the scenario bound to it.  Unknown tokens raise the codec's documented error.
 """
 from __future__ import annotations
-import base64, binascii, json, hmac, hashlib, secrets, zlib, sys, copy, contextlib, os
+import base64, binascii, json, hmac, hashlib, secrets, zlib, sys, copy, contextlib, os, collections
 from unittest import mock
 
 CUR = None          # the active Env (fake native keys record into it)
+_REAL_DUMPS = json.dumps
+
+
+def _concrete(v, depth=0):
+    """True iff v is a plain Python value (no CrossHair symbolic, no opaque object) -- then its token is content-addressed"""
+    c = v.__class__
+    if c in (bytes, str, int, bool, type(None), float):
+        return True
+    if depth > 6:
+        return False
+    if c in (list, tuple):
+        return all(_concrete(x, depth + 1) for x in v)
+    if c is dict or c is collections.OrderedDict:
+        return all(k.__class__ is str and _concrete(x, depth + 1) for k, x in v.items())
+    return False
+
+
+def _fp(v, depth=0):
+    """stable fingerprint text of a value built from plain values and Opaque objects; None if something symbolic is inside"""
+    c = v.__class__
+    if c in (bytes, str, int, bool, type(None), float):
+        return repr(v)
+    if depth > 8:
+        return None
+    if c in (list, tuple, frozenset, set):
+        parts = [_fp(x, depth + 1) for x in (sorted(v, key=repr) if c in (frozenset, set) else v)]
+        return None if any(p is None for p in parts) else "(" + ",".join(parts) + ")"
+    if c is dict or c is collections.OrderedDict:
+        parts = [(_fp(k, depth + 1), _fp(x, depth + 1)) for k, x in v.items()]
+        return None if any(a is None or b is None for a, b in parts) else "{" + ",".join(a + ":" + b for a, b in parts) + "}"
+    if isinstance(v, Opaque):
+        inner = _fp((v.kind, v.parts, v.cut, getattr(v, "n", None)), depth + 1)
+        return None if inner is None else "O" + inner
+    return None
 
 
 class HarnessError(Exception):
@@ -76,6 +110,7 @@ class Env:
         self.calls = []
         self.draws = []
         self.signed = []     # ideal mode: (kind, key id, params, msg) -> signature
+        self.bytes_table = []
         self.dumps_kwargs = []
 
     # ---- scripted verdicts
@@ -105,7 +140,14 @@ class Env:
         for tok, val in self.b64.items():
             if not isinstance(val, BaseException) and type(val) is type(v) and val == v:
                 return tok
-        tok = b"E%d" % len(self.b64_made)
+        if v.__class__ is bytes:
+            # content-addressed: the same octets get the same token in every environment (needed when results of different
+            # calls are compared, C20)
+            tok = b"E" + hashlib.sha1(v).hexdigest()[:12].encode()
+        elif isinstance(v, Opaque) and _fp(v) is not None:
+            tok = b"O" + hashlib.sha1(_fp(v).encode()).hexdigest()[:12].encode()
+        else:
+            tok = b"E%d" % len(self.b64_made)
         self.b64_made.append((v, tok))
         return tok
 
@@ -133,7 +175,10 @@ class Env:
         for val, tok in self.js_made:
             if val == obj:
                 return tok
-        tok = "J%d" % len(self.js_made)
+        if _concrete(obj):
+            tok = "J" + hashlib.sha1(_REAL_DUMPS(obj, sort_keys=False, default=repr).encode()).hexdigest()[:12]
+        else:
+            tok = "J%d" % len(self.js_made)
         self.js_made.append((jcopy(obj), tok))
         return tok
 
@@ -569,21 +614,35 @@ class Sized(Opaque):
     def __bool__(self):
         return self.n > 0
 
+    def octets(self, env):
+        global CUR
+        prev, CUR = CUR, env
+        try:
+            return self.__bytes__()
+        finally:
+            CUR = prev
+
     def __bytes__(self):
         """a concrete stand-in of the right length: equal opaque values get equal octets, different ones different octets"""
-        for obj, tok in _BYTES_TABLE:
+        if CUR is None:
+            raise HarnessError("bytes() of an opaque value outside an environment: use .octets(env)")
+        table = CUR.bytes_table        # per environment: nothing symbolic may outlive a path
+        for obj, tok in table:
             if obj == self:
                 return tok
-        i = len(_BYTES_TABLE)
+        i = len(table)
         tok = ((b"<%05d>" % i) * (self.n // 7 + 1))[:self.n]
-        _BYTES_TABLE.append((self, tok))
+        table.append((self, tok))
         return tok
+
+    def __iter__(self):
+        return iter(self.__bytes__())        # (CrossHair's bytes() iterates anything with __getitem__)
 
     def __getitem__(self, s):
         if isinstance(s, slice):
             a, b, _ = s.indices(self.n)
             return Sized(self.kind, max(0, b - a), *self.parts, cut=(self.cut, a, b))
-        raise TypeError("opaque octets cannot be indexed")
+        return self.__bytes__()[s]
 
 
 _BYTES_TABLE = []
@@ -659,7 +718,11 @@ class _CipherCtx:
         kind = "gcm" if gcm else "cbc"
         if self.enc:
             i = len(env.of(kind + "_encrypt"))
-            ct = (b"GC%d" if gcm else b"CC%d") % i
+            if gcm:
+                # GCM is a stream mode: the ciphertext is exactly as long as the plaintext (empty for an empty plaintext)
+                ct = ((b"G%d" % i) + b"c" * 8)[:len(self.data)] if isinstance(self.data, (bytes, bytearray)) and len(self.data) < 8 else b"GC%d-long" % i
+            else:
+                ct = b"CC%d-16-octets--" % i
             r = env.rec(kind + "_encrypt", key=self.c.alg.key, iv=self.c.mode.iv, aad=self.aad, pt=self.data, ct=ct)
             if gcm:
                 self.tag = b"GCMTAG-16-OCTET%d" % i
@@ -810,7 +873,8 @@ class _ChaCtx:
     def encrypt_and_digest(self, pt):
         env = CUR
         i = len(env.of("chacha_encrypt"))
-        ct, tag = b"XC%d" % i, b"CHACHATAG-16-OCT%d" % i
+        ct = ((b"X%d" % i) + b"c" * 8)[:len(pt)] if isinstance(pt, (bytes, bytearray)) and len(pt) < 8 else b"XC%d-long" % i
+        tag = b"CHACHATAG-16-OCT%d" % i
         env.rec("chacha_encrypt", key=self.key, iv=self.nonce, aad=self.aad, pt=pt, ct=ct, tag=tag)
         return ct, tag
 
